@@ -184,7 +184,7 @@ func checkC03(c *Case, s *Stats) error {
 	}
 	sh, ok := shapeOf(fresh)
 	classify(s, c, m, sh, ok)
-	valued := c.HasVals && c.Enc != "Dummy"
+	valued := c.HasVals && c.Enc != "Dummy" && c.Enc != "OptU16"
 	qs := queries(m.AllKeys, c.Win, c.Extra, false)
 	nt := 0
 	err = guard("lookup on a Complete trie", func() error {
@@ -262,7 +262,7 @@ func checkC10(c *Case, s *Stats) error {
 	}
 	sh, ok := shapeOf(fresh)
 	classify(s, c, m, sh, ok)
-	valued := c.HasVals && c.Enc != "Dummy"
+	valued := c.HasVals && c.Enc != "Dummy" && c.Enc != "OptU16"
 	supplied := map[string]struct{}{}
 	if c.HasVals {
 		sp := c.spec()
@@ -687,7 +687,7 @@ func checkC18(c *Case, s *Stats) error {
 // isRenderEnc: values of these encoders render on one line without '#', '=' or newlines.
 func isRenderEnc(enc string) bool {
 	switch enc {
-	case "I8", "I16", "I32", "I64", "U16", "U32", "U64", "Int":
+	case "I8", "I16", "I32", "I64", "U16", "U32", "U64", "Int", "OptU16":
 		return true
 	}
 	return false
